@@ -80,6 +80,22 @@ func (s *Session) Sign(tool string, key *rsa.PrivateKey, cert *x509.Certificate,
 	return os.ReadFile(out)
 }
 
+// Resign adds a signer to an existing DER SignedData with `openssl smime|cms -resign` (the tool may
+// differ from the one that made the message: a message that went through two producers).
+func (s *Session) Resign(tool string, blob []byte, key *rsa.PrivateKey, cert *x509.Certificate, extra ...string) ([]byte, error) {
+	kp := s.WriteKey("rk.pem", key)
+	cp := s.WriteCert("rc.pem", cert)
+	in := s.Write("resign-in.der", blob)
+	out := filepath.Join(s.Dir, "resign-out.der")
+	os.Remove(out)
+	args := []string{tool, "-resign", "-binary", "-md", "sha256", "-inform", "DER", "-outform", "DER", "-in", in, "-signer", cp, "-inkey", kp, "-out", out}
+	args = append(args, extra...)
+	if _, e, err := s.Run(args...); err != nil {
+		return nil, fmt.Errorf("openssl %v: %v: %s", args, err, e)
+	}
+	return os.ReadFile(out)
+}
+
 // Verify runs `openssl smime|cms -verify -noverify` on a DER blob with the
 // given detached content (nil = content is encapsulated); it returns whether
 // openssl reports success.
